@@ -44,6 +44,11 @@ THEOREMS = [
     "XalanModel.Props.C11.dispatch_sound",
     "XalanModel.Props.C11.eval_ep_eq_conv_eval",
     "XalanModel.Props.C11.chars_chunking_admissible",
+    "XalanModel.Props.C11.token_coherent",
+    "XalanModel.Props.C11.token_conversions_standard",
+    "XalanModel.Props.C11.token_boolean_number_literal",
+    "XalanModel.Props.C11.token_boolean_string_literal",
+    "XalanModel.Props.C11.static_conversions_as_specified",
     "XalanModel.Props.C11.recycled_objects_clear_memos",
     "XalanModel.Props.C11.recycled_objects_fresh",
     "XalanModel.Props.C11.recycled_like_fresh_iff",
@@ -600,6 +605,9 @@ def run_cases(ctx, hexe, mexe, cases, side, tag):
                     stats.setdefault("bad_chunks", []).append(inp)
                 ctx.hist["events:%s" % ("0" if not ch else "1" if len(ch) == 1 else "many")] = ctx.hist.get(
                     "events:%s" % ("0" if not ch else "1" if len(ch) == 1 else "many"), 0) + 1
+            if e.kind == "raw":
+                ctx.hist["model:raw-expression"] = ctx.hist.get("model:raw-expression", 0) + 1
+                continue
             if opname != e.op:
                 stats["shape"] += 1
                 ctx.hist["shape-mismatch"] = ctx.hist.get("shape-mismatch", 0) + 1
@@ -679,6 +687,119 @@ def build_cases(r, n_per_op, depth, docs):
     return cases
 
 
+# boundary literals for every conversion (deterministic, independent of the seed) -------------------------------------
+NUM_BOUND = ["0", "0.0", "00", ".0", "0.", "000.000", "1", "007", ".5", "0.000001", "0.0000000001", "1.5", "2147483647",
+             "2147483648", "3000000000", "4294967296", "9007199254740992", "9007199254740993", "9223372036854775807",
+             "9223372036854775808", "18446744073709551616", "1000000000000000000000", "123456789012345678901234567890",
+             "0.1", "99999999999999999999.5"]
+STR_BOUND = ["", "0", "0.0", "00", "-0", "false", "true", " ", "  ", "12", " 12 ", "1e3", "NaN", "Infinity", "-Infinity",
+             "-", ".", "+1", "abc", "0x10", "3000000000"]
+NAN_EXPRS = ["0 div 0", "number('x')", "'abc' * 1", "-(0 div 0)", "1 div 0", "-1 div 0", "0 * (1 div 0)", "1500000000 * 2",
+             "4611686018427387904 * 2", "1 div 3", "2 div 3", "-0.5", "0 * -1", "-(0)", "- 0", "-0.0"]
+# every shape a literal can stand in: root, groups, operands of and/or/not/comparisons/arithmetic, function arguments
+SHAPES = ["%s", "(%s)", "((%s))", "%s or false()", "false() or %s", "%s and true()", "true() and %s", "(%s) or (%s)",
+          "(%s) and (%s)", "not(%s)", "boolean(%s)", "%s = 0", "%s = ''", "%s = false()", "%s != 0", "%s < 1", "%s >= 0", "0 < %s",
+          "-%s", "- (%s)", "%s + 0", "0 - %s", "%s * 1", "%s div 1", "%s mod 2", "number(%s)", "string(%s)",
+          "string-length(%s)", "floor(%s)", "ceiling(%s)", "round(%s)", "concat(%s, '')", "c11:echo(%s)", "c11:bool(%s)",
+          "count(//a) > %s", "$ns = %s", "$rt = %s"]
+
+
+def boundary_cases(thorough):
+    """(docidx, doc, ctx, k, buf, E) for every boundary literal x shape.  The model side uses `raw` expressions only for
+    shapes it cannot express; literals at the root / in groups / under and, or, not, comparisons are real ASTs."""
+    res = []
+
+    def lit_ast(kind, text):
+        return mk_k0(kind, text)
+
+    def build(shape, mk):
+        a = mk()
+        if shape == "%s":
+            return a
+        if shape == "(%s)":
+            return mk_k1("group", a)
+        if shape == "((%s))":
+            return mk_k1("group", mk_k1("group", a))
+        if shape == "%s or false()":
+            return mk_k2("or", a, mk_k0("false"))
+        if shape == "false() or %s":
+            return mk_k2("or", mk_k0("false"), a)
+        if shape == "%s and true()":
+            return mk_k2("and", a, mk_k0("true"))
+        if shape == "true() and %s":
+            return mk_k2("and", mk_k0("true"), a)
+        if shape == "(%s) or (%s)":
+            return mk_k2("or", mk_k1("group", a), mk_k1("group", mk()))
+        if shape == "(%s) and (%s)":
+            return mk_k2("and", mk_k1("group", a), mk_k1("group", mk()))
+        if shape == "not(%s)":
+            return mk_k1("not", a)
+        if shape == "boolean(%s)":
+            return mk_k1("boolean", a)
+        if shape == "%s = 0":
+            return mk_k2("eq", a, mk_k0("num", "0"))
+        if shape == "%s = ''":
+            return mk_k2("eq", a, mk_k0("lit", ""))
+        if shape == "%s = false()":
+            return mk_k2("eq", a, mk_k0("false"))
+        if shape == "%s != 0":
+            return mk_k2("ne", a, mk_k0("num", "0"))
+        if shape == "%s < 1":
+            return mk_k2("lt", a, mk_k0("num", "1"))
+        if shape == "%s >= 0":
+            return mk_k2("ge", a, mk_k0("num", "0"))
+        if shape == "0 < %s":
+            return mk_k2("lt", mk_k0("num", "0"), a)
+        if shape == "-%s":
+            return mk_k1("neg", a)
+        if shape == "- (%s)":
+            return mk_k1("neg", mk_k1("group", a))
+        if shape == "%s + 0":
+            return mk_k2("plus", a, mk_k0("num", "0"))
+        if shape == "0 - %s":
+            return mk_k2("minus", mk_k0("num", "0"), a)
+        if shape == "%s * 1":
+            return mk_k2("mult", a, mk_k0("num", "1"))
+        if shape == "%s div 1":
+            return mk_k2("div", a, mk_k0("num", "1"))
+        if shape == "%s mod 2":
+            return mk_k2("mod", a, mk_k0("num", "2"))
+        if shape in ("number(%s)", "floor(%s)", "ceiling(%s)", "round(%s)", "string-length(%s)"):
+            return mk_k1({"number(%s)": "number1", "floor(%s)": "floor", "ceiling(%s)": "ceiling", "round(%s)": "round",
+                          "string-length(%s)": "strlen1"}[shape], a)
+        if shape == "string(%s)":
+            return mk_fn("string(%s)", [a])
+        if shape == "concat(%s, '')":
+            return mk_fn("concat(%s, %s)", [a, mk_k0("lit", "")])
+        if shape in ("c11:echo(%s)", "c11:bool(%s)"):
+            return mk_ext(shape, a)
+        if shape == "count(//a) > %s":
+            return mk_k2("gt", mk_k1("count", mk_k0("path", "//a")), a)
+        if shape == "$ns = %s":
+            return mk_k2("eq", mk_k0("var", "ns"), a)
+        if shape == "$rt = %s":
+            return mk_k2("eq", mk_k0("var", "rt"), a)
+        return None
+
+    items = [("num", x) for x in NUM_BOUND] + [("lit", x) for x in STR_BOUND]
+    i = 0
+    for kind, text in items:
+        for shape in SHAPES:
+            e = build(shape, lambda: lit_ast(kind, text))
+            if e is None:
+                continue
+            i += 1
+            cx, k = CTXS[i % 3]
+            res.append((0, DOCS[0], cx, k, BUFS[i % len(BUFS)], e))
+    # computed boundary numbers (NaN, infinities, negative zero, values beyond 2^31 / 2^63, repeating fractions)
+    for x in NAN_EXPRS:
+        for shape in (SHAPES if thorough else SHAPES[:12] + ["string(%s)", "-%s", "%s + 0", "round(%s)"]):
+            i += 1
+            src = (shape.replace("%s", "(" + x + ")") if shape != "%s" else x)
+            res.append((0, DOCS[0], "/", 0, BUFS[i % len(BUFS)], E("raw", src, op=None)))
+    return res
+
+
 def corpus_cases():
     """minimised past failures first (gen/corpus/c11/*.json)"""
     res = []
@@ -705,7 +826,8 @@ def run(ctx):
     ctx.build("hooks")
     ok_t, out_t = ctx.translate("c11_dispatch")
     ok_c, out_c = ctx.translate("c11_caches")
-    ok_t = ok_t and ok_c
+    ok_k, out_k = ctx.translate("c11_token")
+    ok_t = ok_t and ok_c and ok_k
     side = None
     sp = os.path.join(common.CACHE, "c11_dispatch.json")
     if ok_t and os.path.exists(sp):
@@ -736,7 +858,9 @@ def run(ctx):
     for _ in range(1 if not ctx.thorough else 6):
         docs.append(gen_doc(r))
     n_per_op, depth = (7, 2) if not ctx.thorough else (40, 3)
-    cases = corpus_cases() + build_cases(r, n_per_op, depth, docs)
+    bcases = boundary_cases(ctx.thorough)
+    ctx.extra["boundary_cases"] = len(bcases)
+    cases = corpus_cases() + bcases + build_cases(r, n_per_op, depth, docs)
     if incoh or not lean_ok:
         # model-guided search (DESIGN §3.3): more witnesses with the named op codes at the root, every supplied string
         r2 = Rng(ctx.seed + 7919)
